@@ -8,6 +8,7 @@ import (
 	"image/color"
 
 	"github.com/ProjectSerenity/firefly/kernel/device/video/console"
+	"github.com/ProjectSerenity/firefly/kernel/device/video/console/font"
 	"github.com/ProjectSerenity/firefly/kernel/zzverif"
 )
 
@@ -390,6 +391,112 @@ func Verif_C18_vt_vga_sync() {
 			} else {
 				zzverif.Assert(now[i] == old[i], "inactive terminal: the console is not touched")
 			}
+		}
+	}
+}
+
+// ---------- C18 with the shipped framebuffer console (8 bpp) ----------
+
+// vfFbFont: an 8x1 font of 256 glyphs, one byte per glyph. Glyph ' ' is blank (as in every real font: a cleared cell
+// and a written space look the same); the other rows are distinct, so the pixels of a cell identify its character.
+func vfFbFont() *font.Font {
+	data := make([]byte, 256)
+	for i := 0; i < 256; i++ {
+		data[i] = byte(i) ^ 0xa5
+	}
+	data[' '] = 0
+	return &font.Font{Name: "verif", GlyphWidth: 8, GlyphHeight: 1, BytesPerRow: 1, Data: data}
+}
+
+// Verif_C18_vt_fb_sync: the step lemma with the real VesaFbConsole (8 bpp, one logo row, one remainder pixel column,
+// 11 padding bytes per row) as the attached console. "Shows the viewport" = every pixel of every cell is the
+// default foreground colour where the glyph of the viewport's character has its bit set and the default background
+// colour elsewhere; everything outside the character grid (logo row, remainder, padding) is never touched.
+//
+//verif:split 6
+func Verif_C18_vt_fb_sync() {
+	w := vfGeom([]uint32{1, 2}, []uint32{1, 2, 3}, "width")
+	h := vfGeom([]uint32{1, 2}, []uint32{1, 2, 3}, "height")
+	s := vfGeom([]uint32{0, 1}, []uint32{0, 1, 2}, "scrollback")
+	tab := vfGeom([]uint32{0, 2}, []uint32{0, 1, 3}, "tab")
+	const gw, offY, pad = 8, 1, 11
+	width, height := w*gw+1, offY+h // (glyphs are one pixel high, so there is no remainder row)
+	pitch := width + pad
+	nfb := int(height * pitch)
+	fnt := vfFbFont()
+	fb := zzverif.Bytes("fb", nfb)
+	cons := console.VerifNewFb8(width, height, pitch, offY, fnt, fb)
+	cw, chh := cons.Dimensions(console.Characters)
+	zzverif.Assert(zzverif.And(cw == w, chh == h), "character grid = whole glyphs that fit beside the logo")
+	n := int(w * (h + s) * 3)
+	t := NewVT(uint8(tab), s)
+	t.cons = cons
+	t.viewportWidth, t.viewportHeight = w, h
+	t.termWidth, t.termHeight = w, h+s
+	t.defaultFg, t.defaultBg = cons.DefaultColors()
+	t.curFg, t.curBg = t.defaultFg, t.defaultBg
+	t.data = zzverif.Bytes("cell", n)
+	for i := 0; i+2 < n; i += 3 {
+		zzverif.Assume(zzverif.And(t.data[i+1] == 7, t.data[i+2] == 0)) // only default colours are ever stored
+	}
+	t.cursorX = 1 + uint32(zzverif.Choice("cursorX", int(w)))
+	t.cursorY = 1 + uint32(zzverif.Choice("cursorY", int(h)))
+	t.viewportY = uint32(zzverif.Choice("viewportY", int(s)+1))
+	t.updateDataOffset()
+	for i := int((t.viewportY + h) * w * 3); i+2 < n; i += 3 {
+		zzverif.Assume(t.data[i] == ' ')
+	}
+	active := zzverif.Choice("active", 2) == 1
+	// pixel (px, row) of the frame buffer belongs to cell (px/gw, row-offY) when inside the grid
+	inGrid := func(i int) (bool, uint32, uint32, uint32) {
+		row, cb := uint32(i)/pitch, uint32(i)%pitch
+		if row < offY || row >= offY+h || cb >= w*gw {
+			return false, 0, 0, 0
+		}
+		return true, cb / gw, row - offY, cb % gw
+	}
+	old := make([]byte, nfb)
+	for i := 0; i < nfb; i++ {
+		if ok, cx, cy, rx := inGrid(i); ok && active {
+			ch := t.data[((t.viewportY+cy)*w+cx)*3]
+			zzverif.Assume(fb[i] == zzverif.IteU8(fnt.Data[ch]&(0x80>>rx) != 0, 7, 0)) // Sync
+		}
+		old[i] = fb[i]
+	}
+	if active {
+		t.state = StateActive
+	}
+	switch zzverif.Choice("op", 3) {
+	case 0:
+		b := zzverif.U8("byte")
+		panicked := zzverif.Catch(func() { t.WriteByte(b) })
+		zzverif.Assert(!panicked, "no write crashes the terminal or the console")
+		if panicked {
+			return
+		}
+	case 1:
+		x, y := zzverif.U32("x"), zzverif.U32("y")
+		t.SetCursorPosition(x, y)
+	case 2:
+		t.SetState(State(zzverif.Choice("state", 2)))
+	}
+	zzverif.Reach("stepped")
+	now := console.VerifFb(cons)
+	zzverif.Assert(len(now) == nfb, "frame buffer size unchanged")
+	for i := 0; i < nfb; i++ {
+		ok, cx, cy, rx := inGrid(i)
+		if !ok {
+			if row, cb := uint32(i)/pitch, uint32(i)%pitch; row >= offY && cb >= w*gw && cb < width {
+				continue // the remainder pixel column travels with its pixel rows when the console scrolls: not specified (as in C19 fb_scroll)
+			}
+			zzverif.Assert(now[i] == old[i], "logo row and padding are never touched by the terminal")
+			continue
+		}
+		if t.state == StateActive {
+			ch := t.data[((t.viewportY+cy)*w+cx)*3]
+			zzverif.Assert(now[i] == zzverif.IteU8(fnt.Data[ch]&(0x80>>rx) != 0, 7, 0), "active terminal: the framebuffer console shows exactly the viewport (glyph of each character in the default colours)")
+		} else {
+			zzverif.Assert(now[i] == old[i], "inactive terminal: the console is not touched")
 		}
 	}
 }
